@@ -2,9 +2,374 @@ package props
 
 import (
 	"encoding/json"
+	"fmt"
+	"math"
+	"sync/atomic"
+	"time"
 
 	"verif/harness/kernel"
 )
 
-func c08E2E(rep *kernel.Report)               {}
-func c08ReplayE2E(doc json.RawMessage) int { return 2 }
+// C08 part B — end to end: series sets × put/rotate/restart histories through the real ingest and query endpoints.
+
+type c08Step struct {
+	Op     string `json:"op"` // put | block | segment | restart
+	Series int    `json:"series,omitempty"`
+	Bits   uint64 `json:"bits,omitempty"`
+	Value  string `json:"value,omitempty"`
+}
+
+type c08Job struct {
+	Series []MSeries `json:"series"`
+	Steps  []c08Step `json:"steps"`
+}
+
+func c08SeriesAlphabet() []MSeries {
+	return []MSeries{
+		{"m", map[string]string{"a": "b"}},
+		{"m", map[string]string{"a": "b", "c": "d"}},
+		{"m", map[string]string{"a": "b__c"}},
+		{"m", map[string]string{"a__b": "c"}},
+		{"m", map[string]string{"ab": "c"}},
+		{"m", map[string]string{"a": "bc"}},
+		{"n", map[string]string{"a": "b"}},
+	}
+}
+
+func c08E2EValues() []float64 {
+	return []float64{1.5, math.Nextafter(1.5, 2), math.Copysign(0, -1), 0, 1e308, 5e-324, -100.25}
+}
+
+var c08RunSeq int64
+
+// restartWorker shuts the server of w down gracefully and boots a new process on the same directory.
+func restartWorker(w *kernel.Worker) (*kernel.Worker, error) {
+	_ = w.Call("shutdown", nil, nil)
+	w.Kill()
+	nw, err := kernel.Spawn(kernel.SpawnOpts{Dir: w.Dir})
+	if err != nil {
+		return nil, err
+	}
+	if err := nw.Call("boot", map[string]interface{}{"server": true, "dir": w.Dir}, nil); err != nil {
+		st := nw.StderrTail()
+		nw.Close()
+		return nil, fmt.Errorf("reboot failed: %v\n%s", err, st)
+	}
+	return nw, nil
+}
+
+func c08RunE2E(w0 *kernel.Worker, j *c08Job, rep *kernel.Report) (*Fail, error) {
+	w := w0
+	defer func() {
+		if w != w0 {
+			w.Close()
+		}
+	}()
+	die := func(err error) (*Fail, error) {
+		fp, what, herr := diedResult("C08", err)
+		if herr != nil {
+			return nil, herr
+		}
+		return &Fail{FP: fp, What: what}, nil
+	}
+	suffix := fmt.Sprintf("_%d_%d", time.Now().UnixNano()%1_000_000_000, atomic.AddInt64(&c08RunSeq, 1))
+	series := make([]MSeries, len(j.Series))
+	for i, s := range j.Series {
+		series[i] = MSeries{Name: s.Name + suffix, Tags: s.Tags}
+	}
+	model := map[string]map[uint32]uint64{} // series key -> ts -> bits
+	ts := MT0
+	layout := ""
+	for si, st := range j.Steps {
+		switch st.Op {
+		case "put":
+			ts++
+			if si%2 == 1 {
+				ts += 58 // irregular steps
+			}
+			s := series[st.Series]
+			ok, raw, err := mPut(w, s, ts, math.Float64frombits(st.Bits))
+			if err != nil {
+				return die(err)
+			}
+			rep.Transition(1)
+			if ok {
+				if model[s.Key()] == nil {
+					model[s.Key()] = map[uint32]uint64{}
+				}
+				model[s.Key()][ts] = st.Bits
+			} else if raw == "" {
+				return &Fail{FP: "C08/e2e-put-no-answer", What: "empty response to put"}, nil
+			}
+		case "block", "segment":
+			var r map[string]interface{}
+			if err := w.Call("mrotate", map[string]interface{}{"kind": st.Op}, &r); err != nil {
+				return die(err)
+			}
+			rep.Transition(1)
+			if r != nil && r["error"] != nil {
+				return &Fail{FP: "C08/e2e-rotate-error/" + st.Op, What: fmt.Sprint(r["error"])}, nil
+			}
+			layout += st.Op[:1]
+		case "restart":
+			nw, err := restartWorker(w)
+			if err != nil {
+				return &Fail{FP: "C08/e2e-restart-failed", What: err.Error()}, nil
+			}
+			if w != w0 {
+				w.Close()
+			}
+			w = nw
+			rep.Transition(1)
+			layout += "R"
+		}
+	}
+	if layout == "" {
+		layout = "open"
+	}
+	// root-cause classes that do not depend on the layout
+	collide := false
+	for _, a := range series {
+		for _, b := range series {
+			if a.Key() != b.Key() && tsidString(a) == tsidString(b) {
+				collide = true
+			}
+		}
+	}
+	fs := &Fails{}
+	names := map[string]bool{}
+	for _, s := range series {
+		names[s.Name] = true
+	}
+	ctx := fmt.Sprintf("steps=%s series=%s", jstr(j.Steps), jstr(j.Series))
+	// (1) per-series selector: exactly that series, bit-exact points
+	for _, s := range series {
+		pts, has := model[s.Key()]
+		if !has {
+			continue
+		}
+		res, status, raw, err := mQueryRange(w, s.Selector(), MT0-10, MT0+340)
+		if err != nil {
+			return die(err)
+		}
+		rep.Eval(1)
+		if status != "ok" {
+			fs.Add("C08/e2e-query-error/"+layout, ctx+": selector "+s.Selector()+": "+status+" "+trunc(raw, 300))
+			continue
+		}
+		var match *MResultSeries
+		for i := range res {
+			if labelsKey(res[i].Labels) == s.Key() {
+				match = &res[i]
+			} else if sameTagSet(res[i].Labels, s) {
+				match = &res[i]
+			} else if !labelsSatisfy(res[i].Labels, s) {
+				// a selector legitimately returns every series carrying these labels (possibly with more labels)
+				fs.Add("C08/e2e-foreign-series", ctx+fmt.Sprintf(": selector %s returned series %s which does not carry the selected labels", s.Selector(), labelsKey(res[i].Labels)))
+			}
+		}
+		if match == nil {
+			fs.Add("C08/e2e-series-missing/"+layout, ctx+fmt.Sprintf(": selector %s returned %d series, none with these labels: %s", s.Selector(), len(res), trunc(raw, 300)))
+			continue
+		}
+		if len(match.Points) != len(pts) {
+			fs.Add("C08/e2e-point-count/"+layout, ctx+fmt.Sprintf(": series %s has %d points, %d were accepted: %v", s.Key(), len(match.Points), len(pts), match.Raw))
+			continue
+		}
+		for _, p := range match.Points {
+			want, ok := pts[p.TS]
+			if !ok {
+				fs.Add("C08/e2e-timestamp/"+layout, ctx+fmt.Sprintf(": series %s returned timestamp %d which was never sent (sent %v)", s.Key(), p.TS, tsList(pts)))
+				continue
+			}
+			if want != p.Bits {
+				cls := "value"
+				if want == math.Float64bits(math.Copysign(0, -1)) && p.Bits == 0 {
+					cls = "negative-zero"
+				}
+				fs.Add(c08ValFP(cls, layout), ctx+fmt.Sprintf(": series %s at %d: sent %v (bits %016x), got %v (bits %016x); raw %v", s.Key(), p.TS,
+					math.Float64frombits(want), want, math.Float64frombits(p.Bits), p.Bits, match.Raw))
+			}
+		}
+	}
+	// (2) by metric name: the set of series equals the model's (never merged, none invented)
+	for name := range names {
+		res, status, raw, err := mQueryRange(w, name, MT0-10, MT0+340)
+		if err != nil {
+			return die(err)
+		}
+		rep.Eval(1)
+		if status != "ok" {
+			fs.Add("C08/e2e-query-error/"+layout, ctx+": query "+name+": "+status+" "+trunc(raw, 300))
+			continue
+		}
+		want := map[string]bool{}
+		for _, s := range series {
+			if s.Name == name && model[s.Key()] != nil {
+				want[s.Key()] = true
+			}
+		}
+		got := map[string]bool{}
+		for _, r := range res {
+			got[labelsKey(r.Labels)] = true
+		}
+		if !setEq(got, want) {
+			fs.Add("C08/e2e-series-set/"+layout, ctx+fmt.Sprintf(": metric %s: series %s, ingested %s", name, setStr(got), setStr(want)))
+		}
+	}
+	if collide {
+		// two tag sets whose "key__value" concatenations are equal: every consequence is one class
+		out := &Fails{}
+		for _, f := range fs.list {
+			if f.FP == "C08/e2e-negative-zero" {
+				out.Add(f.FP, f.What)
+			} else {
+				out.Add("C08/e2e-tsid-collision", f.What)
+			}
+		}
+		return out.Result(), nil
+	}
+	return fs.Result(), nil
+}
+
+// tsidString mimics how a series identity string is built from its tag set (sorted key__value pairs after the name);
+// used only to *classify* failures, never to decide them.
+func c08ValFP(cls, layout string) string {
+	if cls == "negative-zero" {
+		return "C08/e2e-negative-zero"
+	}
+	return "C08/e2e-" + cls + "/" + layout
+}
+
+func tsidString(s MSeries) string {
+	out := s.Name
+	for _, k := range sortedKeys(s.Tags) {
+		out += "__" + k + "__" + s.Tags[k]
+	}
+	return out
+}
+
+func labelsSatisfy(labels map[string]string, s MSeries) bool {
+	if labels["__name__"] != s.Name {
+		return false
+	}
+	for k, v := range s.Tags {
+		if labels[k] != v {
+			return false
+		}
+	}
+	return true
+}
+
+func sameTagSet(labels map[string]string, s MSeries) bool {
+	if labels["__name__"] != s.Name || len(labels) != len(s.Tags)+1 {
+		return false
+	}
+	for k, v := range s.Tags {
+		if labels[k] != v {
+			return false
+		}
+	}
+	return true
+}
+
+func tsList(m map[uint32]uint64) []uint32 {
+	var out []uint32
+	for t := range m {
+		out = append(out, t)
+	}
+	return out
+}
+
+func c08EnumerateE2E(tier string, emit func(c08Job)) {
+	alpha := c08SeriesAlphabet()
+	vals := c08E2EValues()
+	put := func(s int, v float64) c08Step {
+		return c08Step{Op: "put", Series: s, Bits: math.Float64bits(v), Value: fmt.Sprint(v)}
+	}
+	mids := []string{"", "block", "segment"}
+	// (a) one series, every ordered pair of values, every rotation between and after
+	for i := range vals {
+		for k := range vals {
+			for _, mid := range mids {
+				for _, end := range []string{"", "segment", "restart"} {
+					steps := []c08Step{put(0, vals[i])}
+					if mid != "" {
+						steps = append(steps, c08Step{Op: mid})
+					}
+					steps = append(steps, put(0, vals[k]))
+					if end == "restart" && tier != "thorough" && (i+k)%3 != 0 {
+						continue // restarts cost ~0.5 s: quick keeps a third of them
+					}
+					if end != "" {
+						steps = append(steps, c08Step{Op: end})
+					}
+					emit(c08Job{Series: alpha[:1], Steps: steps})
+				}
+			}
+		}
+	}
+	// (b) every ordered pair of distinct series (collision-prone tag sets), values 1 and 2, rotations between
+	for a := range alpha {
+		for b := range alpha {
+			if a == b {
+				continue
+			}
+			for _, mid := range mids {
+				for _, end := range []string{"", "segment"} {
+					steps := []c08Step{put(0, 1), put(1, 2)}
+					if mid != "" {
+						steps = []c08Step{put(0, 1), {Op: mid}, put(1, 2)}
+					}
+					steps = append(steps, put(0, 3))
+					if end != "" {
+						steps = append(steps, c08Step{Op: end})
+					}
+					emit(c08Job{Series: []MSeries{alpha[a], alpha[b]}, Steps: steps})
+				}
+			}
+		}
+	}
+	if tier == "thorough" {
+		// (c) three puts on one series over the value alphabet with all rotation placements
+		for i := range vals {
+			for k := range vals {
+				for l := range vals {
+					for _, m1 := range mids {
+						for _, m2 := range mids {
+							steps := []c08Step{put(0, vals[i])}
+							if m1 != "" {
+								steps = append(steps, c08Step{Op: m1})
+							}
+							steps = append(steps, put(0, vals[k]))
+							if m2 != "" {
+								steps = append(steps, c08Step{Op: m2})
+							}
+							steps = append(steps, put(0, vals[l]), c08Step{Op: "segment"})
+							emit(c08Job{Series: alpha[:1], Steps: steps})
+						}
+					}
+				}
+			}
+		}
+	}
+}
+
+func c08E2E(rep *kernel.Report) {
+	d := &Driver[c08Job]{Rep: rep, Pool: serverPool(),
+		Budget:    kernel.NewBudget(map[string]time.Duration{"quick": 150 * time.Second, "thorough": 30 * time.Minute}[rep.Tier]),
+		Enumerate: func(emit func(c08Job)) { c08EnumerateE2E(rep.Tier, emit) },
+		Run:       c08RunE2E,
+		Key:       func(j *c08Job) string { return jstr(j) },
+		Nontrivial: func(j *c08Job) bool {
+			return len(j.Series) >= 2 || len(j.Steps) >= 3
+		},
+	}
+	d.Drive()
+	rep.Bounds["e2e_series_alphabet"] = len(c08SeriesAlphabet())
+	rep.Bounds["e2e_values"] = len(c08E2EValues())
+}
+
+func c08ReplayE2E(doc json.RawMessage) int {
+	return MakeReplayer[c08Job]("C08", "exploration", serverPool, c08RunE2E)(doc)
+}
